@@ -9,17 +9,17 @@ CONSTANTS
  CRange <- MC_CRange
  Reqs <- MC_Reqs2
  Menu <- MC_MenuQ1
- MaxConns = 3
- MaxMoves = 1
+ MaxConns = 4
+ MaxMoves = 2
  MaxCancels = 0
  MaxCuts = 0
  MaxRefresh = 1
  MaxExpire = 0
  MaxCloseIdle = 0
  Hist = TRUE
- Bug = "firstBroker"
+ Bug = "none"
  AnyConnId = FALSE
- MoveKinds = {"leader"}
+ MoveKinds = {"addr", "leader"}
 INVARIANTS TypeOK C12_Routing C12_Address C12_Version C12_FollowLeader C12_CacheFilter C06t_OwnResponse C06t_ReleaseOnlyAfterComplete C06t_NoReuseAfterFailure C09t_CancelPrompt
 PROPERTIES C12_GrabIsLatest C06t_DeadStaysDead
 CHECK_DEADLOCK FALSE
